@@ -69,7 +69,7 @@ def _tier(tier):
     # single-reaction systems always get the full configuration product (maxdev 6, including the trivially refused combinations)
     if tier == "quick":
         return dict(pool=7, L=3, maxdev=3)
-    return dict(pool=10, L=3, maxdev=6)
+    return dict(pool=12, L=3, maxdev=6)
 
 
 def bounds(tier):
